@@ -217,6 +217,22 @@ impl<'a> Tokenizer<'a> {
             _ => ErrorCode::NumericDataError,
         })?;
         if len > 0 {
+            // lexical-core misses some overflows of a power-of-two radix (`#Q3777777777777777777777`
+            // is reported as u64::MAX), count the significant bits of the literal
+            let bits_per_digit = match radix {
+                b'H' | b'h' => 4,
+                b'Q' | b'q' => 3,
+                _ => 1,
+            };
+            let mut digits = self.chars.as_slice()[..len]
+                .iter()
+                .skip_while(|d| **d == b'0');
+            if let Some(first) = digits.next() {
+                let first_bits = u32::BITS - util::ascii_to_digit(*first, 16).unwrap_or(0).leading_zeros();
+                if first_bits + bits_per_digit * digits.count() as u32 > u64::BITS {
+                    return Err(ErrorCode::DataOutOfRange);
+                }
+            }
             self.chars.nth(len - 1).unwrap();
             let ret = Token::NonDecimalNumericProgramData(n);
             // Skip to next separator
